@@ -233,6 +233,13 @@ def gen_cases(tier: str, seed: int):
         case = {"kind": "steps" if i < n else "chain", "spec": spec, "ispec": ispec,
                 "frac": float(np.exp(rng.uniform(np.log(0.003), np.log(2.5)))), "n": int(rng.integers(1, 11)),
                 "seed": [seed, int(rng.integers(0, 2**31))]}
+        if case["kind"] == "steps" and i % 5 == 4:
+            # hostile: step sized without regard to the curvature of the manifold, larger momenta -- the free step lands far
+            # from the manifold (outside the domain of the log constraints, at astronomically large residuals of the exp
+            # constraints): the solver must answer with a convergence error, never with another exception or a bad state
+            case["hostile"] = True
+            case["frac"] = float(np.exp(rng.uniform(np.log(0.5), np.log(5.0))))
+            case["mom_scale"] = float(rng.uniform(1.0, 4.0))
         if case["kind"] == "chain":
             case["frac"] = float(np.exp(rng.uniform(np.log(0.05), np.log(0.9))))
             case["transition"] = ["static", "multinomial", "slice"][i % 3]
@@ -248,7 +255,8 @@ def run_case(case, obs) -> None:
     rng = np.random.default_rng([abs(int(s)) for s in case["seed"]])
     m = zoo.Model(spec)
     q, p = m.random_point(rng)
-    eps = case["frac"] / intgen.frequency(m, q)
+    p = p * case.get("mom_scale", 1.0)
+    eps = case["frac"] / intgen.frequency(m, q, curvature=not case.get("hostile", False))
     ispec["step_size"] = eps
     integ = zoo.make_integrator(m, ispec)
     sname = {"newton": "solve_projection_onto_manifold_newton", "quasi_newton": "solve_projection_onto_manifold_quasi_newton",
@@ -364,7 +372,7 @@ def run_case(case, obs) -> None:
     finally:
         MON.update(model=None)
     fc = "small" if case["frac"] < 0.05 else ("mid" if case["frac"] < 0.5 else ("large" if case["frac"] < 1.2 else "huge"))
-    obs.token(case["kind"], spec["sys"], spec["constr"], spec.get("metric"), ispec["solver"], ispec["n_inner_step"], fc,
+    obs.token(case["kind"] + ("-hostile" if case.get("hostile") else ""), spec["sys"], spec["constr"], spec.get("metric"), ispec["solver"], ispec["n_inner_step"], fc,
               case.get("transition", "-"))
     obs.sample({"kind": case["kind"], "sys": spec["sys"], "constr": spec["constr"], "metric": spec.get("metric"),
                 "int": ispec, "eps": eps})
